@@ -821,6 +821,20 @@ func (r *vRunner) run(c vCase) {
 			sort.Strings(parts)
 			fmt.Fprintf(r.w, "op dumpfs\nfs %d %s\n", r.idx, strings.Join(parts, " "))
 			continue
+		case "readslots":
+			// the REPLAY VIEW of a multi-entry file: what the library's own reader returns for each of the given headers
+			// ("~" = no such entry) - what a later Match* call would compare with, whatever the bytes in between look like
+			p := r.sb.real(string(vunhex(o.Path)))
+			parts := []string{}
+			for _, idh := range o.Values {
+				v := "~"
+				if s, _, err := getPrevSnapshot(string(vunhex(idh)), p); err == nil {
+					v = vhex([]byte(s))
+				}
+				parts = append(parts, vhex(vunhex(idh))+"="+v)
+			}
+			fmt.Fprintf(r.w, "op readslots path=%s ids=%s\nslots %d %s\n", vhex([]byte(r.sb.virt(p))), strings.Join(o.Values, ","), r.idx, strings.Join(parts, " "))
+			continue
 		case "counters":
 			ev := vEvents()
 			fmt.Fprintf(r.w, "op counters\ncounters %d erred=%d added=%d updated=%d passed=%d skipped=%d\n",
